@@ -2112,6 +2112,20 @@ def spec_bin_name_twins(fns, consts):
         if n == 0:
             obs.append({"fn": fn.name, "block": "shape", "kind": "spec", "target": "bin_name_twins", "msg": f"{fname}: no path computes names", "pc": [], "neg": "true"})
         enc.append(_enc(fn, ex, n))
+    # (1b) _build_subcommand names the subcommand on EVERY path that finds it (whether or not it is already built):
+    #      usage_name and bin_name are assigned before it is returned
+    bfn = _find(fns, "builder/command.rs", "_build_subcommand")
+    bex = symex.Exec(ctx, bfn, [("opq", "self"), ("opq", "name")])
+    bex.run(havoc_unassigned=True, cut_loops=True)
+    n_some = 0
+    for (pc, val), env in zip(bex.returns, bex.return_envs):
+        if val[0] == "enum" and val[1] == "Some":
+            n_some += 1
+            stores = [k for k in env if k.startswith("place:") and k.endswith("std::option::Option<std::string::String>)")]
+            obs.append({"fn": bfn.name, "block": "ret", "kind": "spec", "target": "bin_name_twins",
+                        "msg": "_build_subcommand assigns the subcommand's usage_name and bin_name on every path that returns it", "pc": list(pc), "neg": "false" if len(stores) >= 2 else "true"})
+    if n_some == 0:
+        obs.append({"fn": bfn.name, "block": "shape", "kind": "spec", "target": "bin_name_twins", "msg": "_build_subcommand: no path returns the subcommand", "pc": [], "neg": "true"})
     # (2) the field read as the parent's bin_name is the one _build_bin_names_internal reads with unwrap_or(name / "")
     internal = {u for u in prefix.get("_build_bin_names_internal", ()) if u[2] == "unwrap_or"}
     fields = {u[0] for u in internal}
